@@ -1,6 +1,7 @@
 import PdfVerif.Model.CNTScan
 import PdfVerif.Model.CNTWrite
 import PdfVerif.Model.CNTState
+import PdfVerif.Model.CNTBuilder
 /-! Line-protocol handler for C15 (content streams), key `CNT`. -/
 namespace PdfVerif.Driver.CNT
 open PdfVerif PdfVerif.CNT
@@ -68,6 +69,37 @@ def applyAll (s : St) (idx : Nat) : List (Bytes × List Obj) → St × Option (N
     | .error e => (s, some (idx, e))
     | .ok s' => applyAll s' (idx + 1) rest
 
+mutual
+/-- `hasNonFinite` of `Builder.emit`: a real which is `NaN`, `+Inf` or `-Inf` (as the wire spells them) -/
+def nonFinite : Obj → Bool
+  | .real t => t == [78, 97, 78] || t == [43, 73, 110, 102] || t == [45, 73, 110, 102]
+  | .arr xs => nonFiniteList xs
+  | .dict kv => nonFiniteKV kv
+  | _ => false
+def nonFiniteList : List Obj → Bool
+  | [] => false
+  | x :: xs => nonFinite x || nonFiniteList xs
+def nonFiniteKV : List (Bytes × Obj) → Bool
+  | [] => false
+  | (_, v) :: rest => nonFinite v || nonFiniteKV rest
+end
+
+/-- the Builder model call by call.  A call is `x` (the method refused its arguments without
+    emitting) or the operators it appended to the stream (`-`: none), which go through
+    `Bld.emit` (pre-check: finite operands; the version table is not modelled, the harness
+    sends calls which it does not gate).  Output: `Err != nil` after every call — `emit` and
+    `fail` never clear it. -/
+def bldFlags (b : Bld) : List String → Option String
+  | [] => some ""
+  | c :: rest =>
+    let b' : Option Bld :=
+      if c == "x" then some (b.act (fun _ _ => true) .fail)
+      else (opsOfWire c).map fun os =>
+        os.foldl (fun b op => b.emit (fun _ a => !nonFiniteList a) op.1 op.2) b
+    match b' with
+    | some b' => (bldFlags b' rest).map fun s => (if b'.err then "1" else "0") ++ s
+    | none => none
+
 def handle (args : List String) : String :=
   match args with
   | ["tok", hex] =>
@@ -108,6 +140,13 @@ def handle (args : List String) : String :=
           | none => s!"closed nest={s'.nesting.length} can={canClose s'}"
         s!"ok {showSt s} {after}"
     | _, _ => "bad-wire"
+  | ["bld", ct, ver, calls] =>
+    match ct.toNat? with
+    | some c =>
+      match bldFlags (Bld.new c (ver == "1") (ver != "0")) (calls.splitOn "|") with
+      | some flags => flags
+      | none => "bad-wire"
+    | none => "bad-wire"
   | _ => "bad-op"
 
 end PdfVerif.Driver.CNT
